@@ -259,7 +259,7 @@ def loom_attribution(name, props, msg):
     if "deadlock" in msg:
         return WAKE_PROPS & set(props)
     if "Causality violation" in msg or "UnsafeCell" in msg:
-        if name.endswith("_clone_exclusive") or "_debug_" in name:
+        if name.endswith("_exclusive") or "_debug_" in name:
             # two threads inside clone() of the same stored payload, or a clone not ordered after
             # the send: the channel is Sync for a payload that is only Send (C16), and a receiver
             # does not get a proper clone (the flavour's delivery property)
